@@ -170,7 +170,8 @@ def run_harness(prop_id, tier, seed, mode="check", replay=None, timeout=None):
     if replay:
         cmd += ["--replay", replay]
     t0 = time.time()
-    env = {"PYTHONPATH": VERIF + os.pathsep + os.environ.get("PYTHONPATH", ""), "TOASTY_VERIF_DIR": VERIF}
+    pp = [VERIF] + ([REPO] if os.path.realpath(REPO) != "/repo" else []) + [os.environ.get("PYTHONPATH", "")]
+    env = {"PYTHONPATH": os.pathsep.join(x for x in pp if x), "TOASTY_VERIF_DIR": VERIF, "TOASTY_REPO": REPO}
     try:
         p = subprocess.run(cmd, cwd=VERIF, env={**os.environ, **env}, capture_output=True, text=True, timeout=timeout)
         rc, out, err = p.returncode, p.stdout, p.stderr
@@ -199,6 +200,11 @@ def write_replay(prop_id, name, payload):
 
 
 def main(argv=None):
+    with Lock():
+        return _main(argv)
+
+
+def _main(argv=None):
     from .props import PROPS
     ap = argparse.ArgumentParser()
     ap.add_argument("prop")
@@ -221,8 +227,11 @@ def main(argv=None):
             return 1
         return 0 if res else 2
 
+    import glob
+    for old in glob.glob(os.path.join(VERIF, "replays", f"{pid}_*.json")):
+        os.unlink(old)
     broken = []  # list of (what, detail)
-    with Lock():
+    if True:
         ok_gen, gen_info = regen(cfg)
         if not ok_gen:
             if gen_info.get("failed_modules"):
